@@ -38,8 +38,11 @@ def check_alternation(run, A):
         fn = L.fn
         short = fn.qual.split('::')[1]
         n += 1
-        run.check(L.range_ok, 'R-LOOP', f'{short}: iterates over range(iterations)', fn.loc(L.loop.node), '',
-                  'the EM loop does not run exactly `iterations` times (range(iterations) of the parameter)', construct=f'R-LOOP::{fn.qual}::range')
+        if L.range_ok is None:
+            run.unresolved('R-LOOP', f'{short}: iterates over range(iterations)', fn.loc(L.loop.node), 'the iterable of the EM loop is not a range whose length can be folded')
+        else:
+            run.check(L.range_ok, 'R-LOOP', f'{short}: iterates over range(iterations)', fn.loc(L.loop.node), '',
+                      'the EM loop does not run exactly `iterations` times (range(iterations) of the parameter)', construct=f'R-LOOP::{fn.qual}::range')
         g_ = A.graphs.get(fn)
         exits = [e for e in g_.events if e.kind == 'break' and L.loop in (e.loops or ())] if g_.events and hasattr(g_.events[0], 'loops') else \
             [e for e in g_.events if e.kind == 'break']
